@@ -147,9 +147,9 @@ fn run_batch(c: &Value) -> CaseResult {
     let b = StandardDecisionNNFBuilder::new(VarOrder::new(&order));
     run_batch_on("standard store:", &b, c, nv)?;
     let b2 = SemanticDecisionNNFBuilder::<{ primes::U64_LARGEST }>::new(VarOrder::new(&order));
-    run_batch_on("semantic store:", &b2, c, nv)?;
-    let b3 = SemanticDecisionNNFBuilder::<{ primes::U32_SMALL }>::new(VarOrder::new(&order));
-    run_batch_on("semantic store (U32_SMALL):", &b3, c, nv)
+    // (only the 64-bit prime: with a 32-bit prime two of the few hundred functions of a batch collide with probability ~1e-4,
+    // and a collision -- the documented limit of hash-identified stores, C11 -- would be reported as a wrong diagram)
+    run_batch_on("semantic store:", &b2, c, nv)
 }
 
 pub fn run(c: &Value) -> CaseResult {
